@@ -67,7 +67,10 @@ Apply(e) ==
     [] e.e = "tfree" -> OnTfree(e)
     [] e.e = "tend" -> OnTend(e)
     [] e.e = "h" -> OnH(e)
-    [] e.e = "died" -> Result(st, {V("ANY", "NoCrash", <<e.how, e.code>>)})
+    \* (ThreadSanitizer configuration: the child exits with code 66 at the first data race it is told about)
+    [] e.e = "died" -> Result(st, IF e.how = "exit" /\ e.code = 66
+                                  THEN {V("C13", "NoDataRaceReported", <<"ThreadSanitizer">>)}
+                                  ELSE {V("ANY", "NoCrash", <<e.how, e.code>>)})
     [] e.e = "terminate" -> Result(st, {V("ANY", "NoTerminate", <<>>)})
     [] OTHER -> Result(st, {V("X", "UnknownEvent", <<e.e>>)})
 
